@@ -10,7 +10,7 @@ others = [kt.load_groups()[n] for n in sys.argv[3:]]
 ws, err = kt.prepare_ws(others + [g])
 names = [h.name for h in g.harnesses if not os.environ.get('ONLY') or h.name in os.environ['ONLY'].split(',')]
 t = time.time()
-res, cerr, wall, cmd = kt.run_harnesses(ws, g.package, names, timeout)
+res, cerr, wall, cmd = kt.run_harnesses(ws, g.package, names, timeout, modpath={n: g.modpath for n in names})
 if cerr: print(cerr[:3000])
 for n in names:
     r = res.get(n, {})
